@@ -1,6 +1,6 @@
 (* C18 — graceful shutdown: DPR to ready peers, drain, refuse newcomers, close everything
    Statements copied from the proof files; each is closed by `exact`. *)
-From DV Require Prelude.Base Model.Ids Proofs.IdsP Model.Node Proofs.NodeA.
+From DV Require Prelude.Base Model.Ids Proofs.IdsP Model.Node Proofs.NodeA Proofs.NodeB Proofs.NodeC Proofs.NodeD Proofs.NodeF Proofs.NodeG Proofs.NodeH.
 From Coq Require String List Lia Bool Arith ZArith.
 
 Module FromNodeA.
@@ -58,8 +58,73 @@ Theorem C18_close_after_dpa n cid c :
 Proof. exact (@NodeA.C18_close_after_dpa n cid c). Qed.
 End FromNodeA.
 
+Module FromNodeH.
+Import DV.Prelude.Base DV.Model.Node DV.Proofs.NodeA DV.Proofs.NodeC DV.Proofs.NodeH.
+Local Open Scope Z_scope.
+
+(* C18: every step keeps the stop flag once it is set *)
+Theorem C18_step_keeps_stopping n ds e : n_stopping n = true -> n_stopping (fst (step n ds e)) = true.
+Proof. exact (@NodeH.C18_step_keeps_stopping n ds e). Qed.
+
+(* C18: Node.stop() sets the stop flag *)
+Theorem C18_stop_sets_flag n ds f : n_stopping (fst (step n ds (EStop f))) = true.
+Proof. exact (@NodeH.C18_stop_sets_flag n ds f). Qed.
+
+(* C18: once stop() has been called, the stop flag is set in every later state of the run *)
+Theorem C18_history_stopping_is_forever n0 evs pre n1 f outs post :
+  strace n0 evs = (pre ++ (n1, (EStop f, outs)) :: post)%list ->
+  (forall nk e o, List.In (nk, (e, o)) post -> n_stopping nk = true) /\
+  n_stopping (fst (run n0 evs)) = true.
+Proof. exact (@NodeH.C18_history_stopping_is_forever n0 evs pre n1 f outs post). Qed.
+
+(* C18: a step of a stopping node dials nobody and queues no DWR and no CER *)
+Theorem C18_step_quiet n ds e :
+  n_stopping n = true -> benign e -> List.Forall calm (snd (step n ds e)).
+Proof. exact (@NodeH.C18_step_quiet n ds e). Qed.
+
+(* C18: the step of stop() itself queues DPRs but dials nobody and queues no DWR and no CER *)
+Theorem C18_stop_step_quiet n ds f : List.Forall calm (snd (step n ds (EStop f))).
+Proof. exact (@NodeH.C18_stop_step_quiet n ds f). Qed.
+
+(* C18: after stop() has been called, no later (benign) event of the history dials a peer or queues a DWR or a
+   CER: answers (DWA, DPA, 5012, ...), DPRs and application requests are all that is still queued *)
+Theorem C18_history_quiet n0 evs pre n1 f outs post :
+  strace n0 evs = (pre ++ (n1, (EStop f, outs)) :: post)%list ->
+  List.Forall calm outs /\
+  forall nk e o, List.In (nk, (e, o)) post -> benign e ->
+    (forall p, ~ List.In (ODial p) o) /\
+    (forall cid m, List.In (OQueue cid m) o -> o_req m = true -> o_cmd m <> DW /\ o_cmd m <> CE).
+Proof. exact (@NodeH.C18_history_quiet n0 evs pre n1 f outs post). Qed.
+
+(* C18: every connection attempt after stop() is closed at once (NODE_SHUTDOWN) and registers nothing *)
+Theorem C18_history_newcomers_refused n0 evs pre n1 f outs post nk h o :
+  strace n0 evs = (pre ++ (n1, (EStop f, outs)) :: post)%list ->
+  List.In (nk, (EAccept h, o)) post ->
+  o = [OClose (n_next_cid nk) R_SHUTDOWN] /\ forall ds, n_conns (fst (step nk ds (EAccept h))) = n_conns nk.
+Proof. exact (@NodeH.C18_history_newcomers_refused n0 evs pre n1 f outs post nk h o). Qed.
+
+(* B refuted for EStart: Node.start() on a stopping node dials the persistent peers and sends them a CER *)
+Theorem C18_history_quiet_start_refuted :
+  ~ (forall n ds, n_stopping n = true -> List.Forall calm (snd (step n ds EStart))).
+Proof. exact NodeH.Examples.C18_history_quiet_start_refuted. Qed.
+
+(* B refuted for EConnDone: a connect() that completes while the node is stopping is followed by a CER *)
+Theorem C18_history_quiet_conn_done_refuted :
+  ~ (forall n ds k, n_stopping n = true -> List.Forall calm (snd (step n ds (EConnDone k true)))).
+Proof. exact NodeH.Examples.C18_history_quiet_conn_done_refuted. Qed.
+End FromNodeH.
+
 Print Assumptions FromNodeA.C18_dpr_to_ready.
 Print Assumptions FromNodeA.C18_quiet_while_stopping.
 Print Assumptions FromNodeA.C18_newcomers_refused.
 Print Assumptions FromNodeA.C18_all_closed.
 Print Assumptions FromNodeA.C18_close_after_dpa.
+Print Assumptions FromNodeH.C18_step_keeps_stopping.
+Print Assumptions FromNodeH.C18_stop_sets_flag.
+Print Assumptions FromNodeH.C18_history_stopping_is_forever.
+Print Assumptions FromNodeH.C18_step_quiet.
+Print Assumptions FromNodeH.C18_stop_step_quiet.
+Print Assumptions FromNodeH.C18_history_quiet.
+Print Assumptions FromNodeH.C18_history_newcomers_refused.
+Print Assumptions FromNodeH.C18_history_quiet_start_refuted.
+Print Assumptions FromNodeH.C18_history_quiet_conn_done_refuted.
